@@ -49,12 +49,29 @@ def regexpp(regex: Any) -> str:
         "\t": r"\t",
         "\v": r"\v",
         "\f": r"\f",
-        "\b": r"\b",
         "\a": r"\a",
-        "\0": r"\0",
     }
 
-    result = "".join(ctrl_map.get(c, c) for c in pattern_text)
+    def escape(c: str) -> str:
+        # NOTE: in a regex \b is a word boundary and \0 may run into digits that follow;
+        #   line boundaries like U+2028 would break the source line the literal is printed on
+        n = ord(c)
+        return ctrl_map.get(c) or (
+            f"\\x{n:02x}" if n < 0x100 else f"\\u{n:04x}" if n < 0x10000 else f"\\U{n:08x}"
+        )
+
+    parts: list[str] = []
+    escaped = False
+    for c in pattern_text:
+        if c in ctrl_map or not c.isprintable():
+            if escaped:
+                parts.pop()  # the escape sequence stands for the escaped character too
+            parts.append(escape(c))
+            escaped = False
+        else:
+            parts.append(c)
+            escaped = c == "\\" and not escaped
+    result = "".join(parts)
 
     # Handle trailing backslashes (odd count check for raw string safety)
     if result.endswith("\\") and (len(result) - len(result.rstrip("\\"))) % 2 != 0:
